@@ -273,3 +273,19 @@ func OutcomeText(lexErr, gramErr, listenerErr bool) string {
 	}
 	return t
 }
+
+// WaitFor delays the calling goroutine (natively, bounded) until the named
+// event has happened; under the symbolic executor it does nothing, the
+// schedule being quantified there. It makes the native replay take one of the
+// schedules in which the caller's work overlaps the other goroutine's.
+func WaitFor(name string) {
+	for i := 0; i < 1000; i++ {
+		mu.Lock()
+		n := counts[name]
+		mu.Unlock()
+		if n > 0 {
+			return
+		}
+		yield()
+	}
+}
